@@ -217,6 +217,15 @@ func genRules(t *rapid.T, k ruleKnobs, c sessCtx) (pdrs []model.PDR, fars []mode
 		var ql []uint32
 		if len(appQ) > 0 {
 			ql = append(ql, appQ[rapid.IntRange(0, len(appQ)-1).Draw(t, "qpick")])
+			if len(appQ) > 1 && rapid.IntRange(0, 3).Draw(t, "q2nd") == 0 {
+				// a second application QER behind the first one: the first one stays the rule's application QER
+				for _, id := range appQ {
+					if id != ql[0] {
+						ql = append(ql, id)
+						break
+					}
+				}
+			}
 		}
 		if sessQ != 0 {
 			ql = append(ql, sessQ)
